@@ -1,6 +1,7 @@
 import Hgxv.Proofs.C13
 import Hgxv.Proofs.C13Relabel
 import Hgxv.Proofs.C13Ext
+import Hgxv.Proofs.C13Layer
 /-! # C13 — configuration models preserve every node's degree and every hyperedge size
 
 Theorems about the model `Hgxv/Model/C13.lean` of `generation/configuration_model.py`
@@ -506,3 +507,36 @@ theorem C13_directed_nodes_and_shapes (es : List DEdge) (ds : List Nat) (r : DRe
   · rw [hi, hi]; exact K.tgt x
   · rw [hn]; exact dnodesOf_sorted _
   · rw [hn, mem_dnodesOf, K.src x, K.tgt x]
+
+/-! ## round f: degenerate layers of the `size=` / `order=` variant
+
+`order` / `size` are the arguments as the caller spelled them (`resolveSize`: `order=o` is the layer of size `o+1`).
+Hypotheses: `hdist` — `get_edges()` lists the keys of a dict; `hf` — a stored hyperedge is the sorted tuple of its
+nodes; `hempty` / `hsel` — the case distinction itself (the layer is empty / holds exactly `f`). -/
+
+/-- the requested layer is EMPTY (no hyperedge has the requested size — also when hyperedges of size `order` exist):
+with `n_steps = 0` the call returns exactly the input listing, every hyperedge intact and in place; with
+`n_steps > 0` there is no output (`np.random.randint(0, 0, 2)` raises) -/
+theorem C13_empty_layer (label : Label) (detailed : Bool) (order size : Option Nat) (s n : Nat)
+    (es : List Edge) (ds : List Draw) (hres : resolveSize order size = .ok (some s))
+    (hempty : ∀ e ∈ es, e.length ≠ s) (hdist : es.Nodup) :
+    cmCall label detailed order size n es ds = if n = 0 then .ok es else .error .raise :=
+  cmCall_empty_layer label detailed order size s n es ds hres hempty hdist
+
+-- `order=3` on a hypergraph with hyperedges of size 3 but none of size 4: everything comes back
+example : cmCall .edge true (some 3) none 0 [[0, 1], [0, 1, 2], [1, 2, 3], [4]] [] = .ok [[0, 1], [0, 1, 2], [1, 2, 3], [4]] := rfl
+example : cmCall .stub false none (some 4) 0 [[0, 1], [0, 1, 2], [1, 2, 3], [4]] [.coin true] = .ok [[0, 1], [0, 1, 2], [1, 2, 3], [4]] := rfl
+example : cmCall .edge true (some 3) none 2 [[0, 1], [0, 1, 2]] [.idx 0 0, .idx 0 0] = .error .raise := rfl
+
+/-- the requested layer holds ONE hyperedge `f`: every run that returns — for every `n_steps` and every list of
+draws — returns `f` followed by all other hyperedges, intact (the only possible proposal pairs `f` with itself) -/
+theorem C13_singleton_layer (label : Label) (detailed : Bool) (order size : Option Nat) (s n : Nat)
+    (es : List Edge) (ds : List Draw) (f : Edge) (out : List Edge)
+    (hres : resolveSize order size = .ok (some s))
+    (hsel : es.filter (fun e => e.length == s) = [f]) (hf : f.Pairwise (· < ·)) (hdist : es.Nodup)
+    (h : cmCall label detailed order size n es ds = .ok out) :
+    out = f :: es.filter (fun e => e.length != s) ∧ out.Perm es :=
+  cmCall_singleton_layer label detailed order size s n es ds f out hres hsel hf hdist h
+
+example : cmCall .stub true (some 2) none 2 [[0, 1], [0, 1, 2], [3, 4]] [.idx 0 0, .idx 0 0]
+    = .ok [[0, 1, 2], [0, 1], [3, 4]] := rfl
